@@ -285,13 +285,31 @@ fn cmd_run(args: &[String]) {
     });
     // 2. the model
     let mobs = model_obs(model, &cases);
-    // 2b. the render trees of both sides (tree-level correspondence)
+    // 2b. the render trees of both sides (tree-level correspondence), in batches so that the token strings of at most one
+    // batch are alive at a time (deeply nested documents have trees of several hundred kilobytes); kept per case: agreement,
+    // and the texts of the first few differing pairs
     let tree_on = prop.tree_level() && std::env::var("VERIF_NOTREE").is_err();
-    let (itrees, mtrees): (Vec<String>, Vec<String>) = if tree_on {
-        (par_map(&cases, |c| tree::impl_tree(&c.html, &c.cfg, prop.timeout())), model_trees(model, &cases))
-    } else {
-        (vec![], vec![])
-    };
+    // per case: None = not compared (no tree: hang), Some(None) = agree, Some(Some((imp, model))) = differ
+    let mut tree_cmp: Vec<Option<Option<(String, String)>>> = Vec::with_capacity(if tree_on { n } else { 0 });
+    if tree_on {
+        let mut kept = 0usize;
+        for chunk in cases.chunks(2000) {
+            let it = par_map(chunk, |c| tree::impl_tree(&c.html, &c.cfg, prop.timeout()));
+            let mt = model_trees(model, chunk);
+            for (a, b) in it.into_iter().zip(mt.into_iter()) {
+                if a.starts_with("hang") {
+                    tree_cmp.push(None);
+                } else if tree::trees_agree(&a, &b) {
+                    tree_cmp.push(Some(None));
+                } else if kept < 8 {
+                    kept += 1;
+                    tree_cmp.push(Some(Some((a, b))));
+                } else {
+                    tree_cmp.push(Some(Some((String::new(), String::new()))));
+                }
+            }
+        }
+    }
     let mut tree_cases = 0usize;
     let mut tree_disagree = 0usize;
 
@@ -339,14 +357,15 @@ fn cmd_run(args: &[String]) {
         }
         if tree_on {
             // a case on which the implementation does not return (a known hang) has no tree to compare
-            let (it, mt) = (&itrees[i], &mtrees[i]);
-            if !(it.starts_with("hang") || matches!(io, Obs::Hang(_))) {
-                tree_cases += 1;
-                if !tree::trees_agree(it, mt) {
-                    tree_disagree += 1;
-                    proj_disagree += 1;
-                    if findings.iter().filter(|f| f.kind == "model").count() < 5 {
-                        findings.push(Finding { kind: "model", case: c.clone(), what: format!("tree: model and implementation build different render trees ({})", tree::first_diff(it, mt)), known: None, imp: it.chars().take(600).collect(), model: mt.chars().take(600).collect() });
+            if let Some(cmp) = &tree_cmp[i] {
+                if !matches!(io, Obs::Hang(_)) {
+                    tree_cases += 1;
+                    if let Some((it, mt)) = cmp {
+                        tree_disagree += 1;
+                        proj_disagree += 1;
+                        if !it.is_empty() && findings.iter().filter(|f| f.kind == "model").count() < 5 {
+                            findings.push(Finding { kind: "model", case: c.clone(), what: format!("tree: model and implementation build different render trees ({})", tree::first_diff(it, mt)), known: None, imp: it.chars().take(600).collect(), model: mt.chars().take(600).collect() });
+                        }
                     }
                 }
             }
